@@ -299,15 +299,19 @@ Fixpoint drop_prune_obs (evs : list (fevent * N)) (os : list fobs) : list fobs :
   | _, _ => []
   end.
 
-Theorem filter_prune_transparent_rel evs : forall f f' p cur B,
+(* the time of the last event (the start time if there is none) *)
+Definition last_ev_time (cur : N) (evs : list (fevent * N)) : N := fold_left (fun _ x => snd x) evs cur.
+
+Lemma filter_prune_transparent_gen evs : forall f f' p cur B,
   frel B cur f f' -> mono_ev cur evs -> Forall (fun x => snd x <= B) evs ->
   snd (fst (frun f p evs)) = snd (fst (frun f' p (no_fprunes evs))) /\
-  drop_prune_obs evs (snd (frun f p evs)) = snd (frun f' p (no_fprunes evs)).
+  drop_prune_obs evs (snd (frun f p evs)) = snd (frun f' p (no_fprunes evs)) /\
+  frel B (last_ev_time cur evs) (fst (fst (frun f p evs))) (fst (fst (frun f' p (no_fprunes evs)))).
 Proof.
   induction evs as [|[e now] evs IH]; intros f f' p cur B Fr M Bf.
   - cbn. auto.
   - destruct M as [L M]. inversion Bf as [|x y LB Bfr]; subst. cbn [fst snd] in *.
-    cbn [no_fprunes List.filter fst]. fold (no_fprunes evs).
+    cbn [no_fprunes List.filter fst last_ev_time fold_left snd]. fold (no_fprunes evs). fold (last_ev_time now evs).
     destruct (is_fprune e) eqn:Pe; cbn [negb].
     + destruct e; try discriminate. cbn [frun fstep].
       pose proof (fstep_prune_rel B cur now f f' Fr L LB) as Fr1.
@@ -320,7 +324,16 @@ Proof.
       cbn [fst snd] in *. subst p1' o'.
       specialize (IH f1 f1' p1 now B Fr1 M Bfr).
       destruct (frun f1 p1 evs) as [[f2 p2] os]. destruct (frun f1' p1 (no_fprunes evs)) as [[f2' p2'] os'].
-      cbn [fst snd drop_prune_obs] in *. rewrite Pe. destruct IH as [IH1 IH2]. split; [exact IH1|]. f_equal. exact IH2.
+      cbn [fst snd drop_prune_obs] in *. rewrite Pe. destruct IH as (IH1 & IH2 & IH3).
+      split; [exact IH1|]. split; [f_equal; exact IH2|exact IH3].
+Qed.
+
+Theorem filter_prune_transparent_rel evs f f' p cur B :
+  frel B cur f f' -> mono_ev cur evs -> Forall (fun x => snd x <= B) evs ->
+  snd (fst (frun f p evs)) = snd (fst (frun f' p (no_fprunes evs))) /\
+  drop_prune_obs evs (snd (frun f p evs)) = snd (frun f' p (no_fprunes evs)).
+Proof.
+  intros Fr M Bf. destruct (filter_prune_transparent_gen evs f f' p cur B Fr M Bf) as (A1 & A2 & _). auto.
 Qed.
 
 (* a filter is related to itself when its limiters are in a state they can be in at time [cur]
@@ -351,6 +364,30 @@ Theorem filter_prune_transparent evs f p cur B :
   drop_prune_obs evs (snd (frun f p evs)) = snd (frun f p (no_fprunes evs)).
 Proof. intros G. apply filter_prune_transparent_rel. apply frel_refl. exact G. Qed.
 
+Lemma frel_fgood B cur f f' : frel B cur f f' -> fgood B cur f.
+Proof.
+  intros (r' & _ & R). unfold fgood. destruct (rate f) as [r|]; [|exact Logic.I].
+  destruct r' as [r2|]; cbn [orrel] in R; [|contradiction].
+  destruct R as (_ & (W & _ & I & _ & H) & Nd & Ip). split; [split; [exact W|split; [exact I|exact H]]|]. split.
+  - destruct (node_rl r) as [l|]; cbn [olgood]; [|exact Logic.I].
+    destruct (node_rl r2) as [l2|]; cbn [olrel] in Nd; [|contradiction].
+    destruct Nd as (W1 & _ & I1 & _ & H1). split; [exact W1|split; [exact I1|exact H1]].
+  - destruct (ip_rl r) as [l|]; cbn [olgood]; [|exact Logic.I].
+    destruct (ip_rl r2) as [l2|]; cbn [olrel] in Ip; [|contradiction].
+    destruct Ip as (W1 & _ & I1 & _ & H1). split; [exact W1|split; [exact I1|exact H1]].
+Qed.
+
+(* the limiter states the filter can reach: [fgood] is preserved by every history (so the window
+   theorems of Proofs/LimiterGap.v apply to a window that starts anywhere inside a history) *)
+Theorem filter_limiters_reachable evs f p cur B :
+  fgood B cur f -> mono_ev cur evs -> Forall (fun x => snd x <= B) evs ->
+  fgood B (last_ev_time cur evs) (fst (fst (frun f p evs))).
+Proof.
+  intros G M Bf.
+  destruct (filter_prune_transparent_gen evs f f p cur B (frel_refl B cur f G) M Bf) as (_ & _ & Fr).
+  eapply frel_fgood. exact Fr.
+Qed.
+
 (* the hypotheses on a non-trivial history: quotas 3 per 1000 ns per IP, 2 per 1000 ns per node,
    100 per 1000 ns in total; prunes between the datagrams; the fourth datagram of IP 9 is refused
    (and bans the IP) with and without the prunes *)
@@ -372,4 +409,20 @@ Proof.
   assert (G : forall t_ tt_, 2990 + t_ + t_ < U64 -> lgood 2990 40 {| tau := t_; tt := tt_; tats := [] |}).
   { intros t_ tt_ H. split; [constructor|]. split; [intro k; exact I|exact H]. }
   repeat split; apply G; vm_compute; reflexivity.
+Qed.
+
+(* [fgood] provides exactly the limiter hypotheses of the window theorems *)
+Lemma fgood_limiters B cur f r :
+  fgood B cur f -> rate f = Some r ->
+  (wfl (total_rl r) /\ linv (total_rl r) (cur - init_time r) /\
+   (B - init_time r) + tau (total_rl r) + tau (total_rl r) < U64) /\
+  (forall l, node_rl r = Some l ->
+     wfl l /\ linv l (cur - init_time r) /\ (B - init_time r) + tau l + tau l < U64) /\
+  (forall l, ip_rl r = Some l ->
+     wfl l /\ linv l (cur - init_time r) /\ (B - init_time r) + tau l + tau l < U64).
+Proof.
+  intros G Rt. unfold fgood in G. rewrite Rt in G. destruct G as (Gt & Gn & Gi).
+  split; [exact Gt|]. split; intros l E.
+  - rewrite E in Gn. exact Gn.
+  - rewrite E in Gi. exact Gi.
 Qed.
